@@ -1,10 +1,11 @@
 // ---- spec/control_sem.rs : hub — documented control-flow semantics of MAST execution ------------
 // Source: docs/src/user_docs/assembly/flow_control.md, docs/src/design/programs.md,
 // docs/src/design/decoder/main.md.  The semantics is the LEAST relation closed under the rules
-// below.  `exec_rel` / `iter_rel` are uninterpreted; the rules are introduction axioms.  The
-// executors prove `exec_rel(block, before, after)` for every successful run, i.e. membership in
-// every relation closed under the rules, hence in the least one.  (No rule lets a split take the
-// branch that the condition does not select, or a loop continue on anything but 1.)
+// below.  `exec_rel` / `iter_rel` / `steps_rel` are uninterpreted; the rules are introduction
+// axioms.  The executors prove `exec_rel(block, before, after, trace)` for every successful run,
+// i.e. membership in every relation closed under the rules, hence in the least one.  (No rule lets
+// a split take the branch the condition does not select, or a loop continue on anything but 1.)
+// `trace` is the sequence of operations the decoder records for the run (C13).
 pub struct PState { pub s: Seq<Felt>, pub g: Regs }
 
 /// one more cycle, nothing else changes (JOIN / END / SPAN / RESPAN ... rows)
@@ -15,37 +16,55 @@ pub open spec fn tick(p: PState) -> PState {
 pub open spec fn drop_tick(p: PState) -> PState {
     PState { s: sem_drop(p.s), g: tick(p).g }
 }
-pub uninterp spec fn exec_rel(b: CodeBlock, p0: PState, p1: PState) -> bool;
+pub uninterp spec fn exec_rel(b: CodeBlock, p0: PState, p1: PState, tr: Seq<Operation>) -> bool;
 /// iterations of a loop body: starts with a body execution, ends when the body leaves 0 on top
-pub uninterp spec fn iter_rel(body: CodeBlock, p0: PState, p1: PState) -> bool;
+pub uninterp spec fn iter_rel(body: CodeBlock, p0: PState, p1: PState, tr: Seq<Operation>) -> bool;
+/// straight-line execution of a sequence of (non-control) operations
+pub uninterp spec fn steps_rel(ops: Seq<Operation>, p0: PState, p1: PState) -> bool;
+
+/// one user operation takes exactly one cycle; its effect is op_rel whenever the documented
+/// operand precondition holds ("undefined otherwise")
+pub open spec fn step_ok(op: Operation, p0: PState, p1: PState) -> bool {
+    &&& p1.g.clk == p0.g.clk + 1
+    &&& !is_control(op)
+    &&& (op_pre(op, p0.s) ==> op_rel(op, p0.s, p0.g, p1.s, p1.g))
+}
 
 #[verifier::external_body]
-pub proof fn rule_join(j: Join, p0: PState, p1: PState, p2: PState)
-    requires exec_rel(j.body[0], tick(p0), p1), exec_rel(j.body[1], p1, p2)
-    ensures exec_rel(CodeBlock::Join(j), p0, tick(p2)) {}
+pub proof fn rule_steps_nil(p: PState)
+    ensures steps_rel(Seq::<Operation>::empty(), p, p) {}
 #[verifier::external_body]
-pub proof fn rule_split_true(sp: Split, p0: PState, p2: PState)
-    requires p0.s[0].val() == 1, exec_rel(sp.branches[0], drop_tick(p0), p2)
-    ensures exec_rel(CodeBlock::Split(sp), p0, tick(p2)) {}
+pub proof fn rule_steps_snoc(ops: Seq<Operation>, op: Operation, p0: PState, pm: PState, p1: PState)
+    requires steps_rel(ops, p0, pm), step_ok(op, pm, p1)
+    ensures steps_rel(ops.push(op), p0, p1) {}
+
 #[verifier::external_body]
-pub proof fn rule_split_false(sp: Split, p0: PState, p2: PState)
-    requires p0.s[0].val() == 0, exec_rel(sp.branches[1], drop_tick(p0), p2)
-    ensures exec_rel(CodeBlock::Split(sp), p0, tick(p2)) {}
+pub proof fn rule_join(j: Join, p0: PState, p1: PState, p2: PState, t1: Seq<Operation>, t2: Seq<Operation>)
+    requires exec_rel(j.body[0], tick(p0), p1, t1), exec_rel(j.body[1], p1, p2, t2)
+    ensures exec_rel(CodeBlock::Join(j), p0, tick(p2), seq![Operation::Join] + t1 + t2 + seq![Operation::End]) {}
+#[verifier::external_body]
+pub proof fn rule_split_true(sp: Split, p0: PState, p2: PState, t: Seq<Operation>)
+    requires p0.s[0].val() == 1, exec_rel(sp.branches[0], drop_tick(p0), p2, t)
+    ensures exec_rel(CodeBlock::Split(sp), p0, tick(p2), seq![Operation::Split] + t + seq![Operation::End]) {}
+#[verifier::external_body]
+pub proof fn rule_split_false(sp: Split, p0: PState, p2: PState, t: Seq<Operation>)
+    requires p0.s[0].val() == 0, exec_rel(sp.branches[1], drop_tick(p0), p2, t)
+    ensures exec_rel(CodeBlock::Split(sp), p0, tick(p2), seq![Operation::Split] + t + seq![Operation::End]) {}
 #[verifier::external_body]
 pub proof fn rule_loop_skip(l: Loop, p0: PState)
     requires p0.s[0].val() == 0
-    ensures exec_rel(CodeBlock::Loop(l), p0, tick(drop_tick(p0))) {}
+    ensures exec_rel(CodeBlock::Loop(l), p0, tick(drop_tick(p0)), seq![Operation::Loop, Operation::End]) {}
 #[verifier::external_body]
-pub proof fn rule_loop_enter(l: Loop, p0: PState, p1: PState)
-    requires p0.s[0].val() == 1, iter_rel(*l.body, drop_tick(p0), p1)
-    ensures exec_rel(CodeBlock::Loop(l), p0, p1) {}
+pub proof fn rule_loop_enter(l: Loop, p0: PState, p1: PState, t: Seq<Operation>)
+    requires p0.s[0].val() == 1, iter_rel(*l.body, drop_tick(p0), p1, t)
+    ensures exec_rel(CodeBlock::Loop(l), p0, p1, seq![Operation::Loop] + t) {}
 /// the body left 0 on top: END row, the 0 is dropped
 #[verifier::external_body]
-pub proof fn rule_iter_exit(body: CodeBlock, p0: PState, pa: PState)
-    requires exec_rel(body, p0, pa), pa.s[0].val() == 0
-    ensures iter_rel(body, p0, drop_tick(pa)) {}
+pub proof fn rule_iter_exit(body: CodeBlock, p0: PState, pa: PState, t: Seq<Operation>)
+    requires exec_rel(body, p0, pa, t), pa.s[0].val() == 0
+    ensures iter_rel(body, p0, drop_tick(pa), t + seq![Operation::End]) {}
 /// the body left 1 on top: REPEAT row drops it and the body runs again
 #[verifier::external_body]
-pub proof fn rule_iter_repeat(body: CodeBlock, p0: PState, pa: PState, p1: PState)
-    requires exec_rel(body, p0, pa), pa.s[0].val() == 1, iter_rel(body, drop_tick(pa), p1)
-    ensures iter_rel(body, p0, p1) {}
+pub proof fn rule_iter_repeat(body: CodeBlock, p0: PState, pa: PState, p1: PState, t: Seq<Operation>, t2: Seq<Operation>)
+    requires exec_rel(body, p0, pa, t), pa.s[0].val() == 1, iter_rel(body, drop_tick(pa), p1, t2)
+    ensures iter_rel(body, p0, p1, t + seq![Operation::Repeat] + t2) {}
